@@ -294,6 +294,84 @@ func skewed(n int, seed uint64, alpha int, num, den, rare uint64) []byte {
 	return b
 }
 
+// deepCode builds an input whose coded symbols are mostly match lengths 3..10 with Fibonacci-like
+// counts (each at least the sum of all lighter ones, times slack) above a mass a0 of rarely used
+// symbols - the weight profile that drives an adaptive Huffman tree to its greatest depth between two
+// rebuilds (codes of 17 and 18 bits for the lightest symbols). The text is made of 20 bases of 12
+// distinct bytes; a word is a prefix of a base, the base after it never continues the match, and every
+// so often all bases are repeated in full in a changing order so that they stay inside the window.
+func deepCode(a0, slack float64) []byte {
+	const m, blen, nlev = 20, 12, 8
+	w := []float64{a0 / 2 * slack, a0 * slack}
+	a := []float64{a0, a0 + w[0]}
+	a = append(a, a[1]+w[1])
+	for len(w) < nlev {
+		w = append(w, a[len(w)-1]*slack)
+		a = append(a, a[len(a)-1]+w[len(w)-1])
+	}
+	var counts []int
+	for i := len(w) - 1; i >= 0; i-- {
+		counts = append(counts, int(w[i]))
+	}
+	bases := make([][]byte, m)
+	v := 0
+	for i := range bases {
+		bases[i] = make([]byte, blen)
+		for k := range bases[i] {
+			bases[i][k] = byte(v)
+			v++
+		}
+	}
+	var in []byte
+	for _, b := range bases {
+		in = append(in, b...)
+	}
+	left := append([]int{}, counts...)
+	total := 0
+	for _, c := range counts {
+		total += c
+	}
+	next := map[[2]int]int{}
+	b, refresh := 0, 0
+	lens := []int{3, 4, 5, 6, blen, 7, 8, 9, 10}
+	strides := []int{1, 3, 7, 9, 11, 13, 17, 19}
+	for n := 0; n < total; n++ {
+		bestK, bestV := -1, -1.0
+		for k, l := range left { // the symbol furthest behind its share
+			if l == 0 {
+				continue
+			}
+			if val := float64(l) / float64(counts[k]); val > bestV {
+				bestV, bestK = val, k
+			}
+		}
+		if bestK < 0 {
+			break
+		}
+		left[bestK]--
+		L := lens[bestK]
+		if L == blen {
+			st := strides[refresh%len(strides)]
+			refresh++
+			for i := 0; i < m; i++ {
+				in = append(in, bases[(refresh+i*st)%m]...)
+			}
+			left[bestK] -= m - 1
+			if left[bestK] < 0 {
+				left[bestK] = 0
+			}
+			n += m - 1
+			continue
+		}
+		in = append(in, bases[b][:L]...)
+		key := [2]int{b, L}
+		c := next[key]
+		next[key] = c + 1
+		b = (b + 1 + c%(m-1)) % m
+	}
+	return append(in, 253, 254, 255)
+}
+
 func periodic(n, p int) []byte {
 	b := make([]byte, n)
 	for i := range b {
@@ -360,6 +438,12 @@ func longFamily(thorough bool) []namedInput {
 	// very skewed sources, long enough for several rebuilds: the deepest codes of the adaptive tree
 	for i, sh := range [][4]uint64{{12, 3, 4, 1000}, {12, 3, 4, 3000}, {9, 3, 4, 300}, {10, 3, 5, 3000}, {11, 7, 10, 600}, {12, 2, 3, 2000}} {
 		out = append(out, namedInput{fmt.Sprintf("skewed-%d/150000", i), skewed(150000, uint64(i+1), int(sh[0]), sh[1], sh[2], sh[3])})
+	}
+	// the deepest codes of all: 17 and 18 bits (the coder's code register is 16 bits wide)
+	for _, a0 := range []float64{540, 570, 600, 640} {
+		for _, sl := range []float64{1.02, 1.04, 1.06, 1.09} {
+			out = append(out, namedInput{fmt.Sprintf("deep-code-%v-%v", a0, sl), deepCode(a0, sl)})
+		}
 	}
 	if thorough {
 		out = append(out, namedInput{"text/full", corpusText(1 << 30)})
